@@ -50,6 +50,59 @@ CLAIMS = {
         note=TB + "Preconditions: in-range positions, bases < 4."),
 }
 
+DT_TECH = ("abstract interpretation of the generic MIR in decision-table mode: data-consulting calls are oracles with finite domains identified by callee + "
+           "provenance of their arguments, oracle outcomes enumerated exhaustively (trace partitioning), every leaf compared with a specification function "
+           "written from the property statement")
+DT_NOTE = TB + ("Oracle role assignment (which call is `the availability test`, `the neighbour's extensions`) is by callee identity and argument provenance; "
+                "an unassignable call makes the row INCONCLUSIVE, never a violation. ")
+
+CLAIMS.update({
+    "C01": dict(
+        category="other", design_ref="DESIGN.md §4 C01, Appendix B.5", technique=DT_TECH + "; abstract walks with a scripted step function; typestate of the availability set",
+        text="Decides S(C01) — necessary structural clauses, not the partition itself: (1) availability typestate of the growth loop on scripted walks of "
+             "0–2 accepted steps: every placed k-mer is removed from the availability set before the step function is consulted again, (current, dir) "
+             "advance to the step's result, the loop leaves only on Terminal; (2) the node builder on every pair of scripted walks and orientations "
+             "(K=3,5): exactly one correctly oriented base per placed k-mer at the correct end, one payload fold per k-mer, terminal extensions "
+             "complemented exactly when the last entry is reversed; (3) the driver: every id made available, each id still available at its turn seeds "
+             "exactly one node, each node added once; (4) the three public entry points reach the driver once with the caller's strandedness and table "
+             "(compress_kmers_no_exts: extension bit ⇔ neighbour in the key set, neighbour canonicalised iff unstranded); (5) BaseGraph::add keeps the "
+             "parallel arrays aligned. A tree on which one of these fails has an input (cycle, hairpin, shard boundary, stranded table) on which C01 fails.",
+        note=DT_NOTE + "Not decided: that the walk reaches every k-mer and termination on cycles (data-dependent)."),
+    "C02": dict(
+        category="other", design_ref="DESIGN.md §4 C02, Appendix B.1/B.2", technique=DT_TECH + "; bit-vector lemmas for the Exts queries and the palindrome/canonical-form tables",
+        text="Decides S(C02): the complete decision tables of BOTH step functions equal the step rule of the statement row by row — Unique ⇔ one "
+             "extension ∧ not a palindrome (when unstranded) ∧ neighbour present ∧ available ∧ one incoming extension ∧ neighbour not a palindrome ∧ join "
+             "predicate accepts — in both directions of the iff (missing conjunct = over-merge, extra conjunct = under-merge), for stranded and "
+             "unstranded, both walking directions, with and without strand flip; rows no test executes (stranded ∧ palindrome, join=false, flipped "
+             "arrival) are ordinary rows. Also: the side asked of the neighbour, the canonicalisation, join/availability operands; growth loops leave "
+             "only on Terminal and are run Left and Right from every seed; is_palindrome/min_rc tables and the Exts bit layout lemmas.",
+        note=DT_NOTE + "Rows where the neighbour reports no incoming extension are outside the property's precondition. Global uniqueness of the decomposition is not decided."),
+    "C03": dict(
+        category="other", design_ref="DESIGN.md §4 C03, Appendix B.3/B.4", technique=DT_TECH,
+        text="Decides S(C03): find_link's table (which end index is probed with which strand; returned side/flip), the index identity (left index = "
+             "first k-mers → node id, right = last k-mers), find_edges (one edge per extension whose probe resolves, probes from the correct end in the "
+             "correct direction), get_valid_exts / remove_censored_exts / remove_censored_exts_sharded (8 items × item states × backgrounds × strandedness: "
+             "an extension is removed exactly when its target is absent/censored; the searched key is canonical iff unstranded), fix_exts lockstep, "
+             "max_path on ~2900 scripted neighbourhoods never repeats a node (edges back to the start node or the node just visited included), and "
+             "sequence_of_path's K-1 overlap and orientation.",
+        note=DT_NOTE + "Not decided: that the resolvable edge set equals the input's (K+1)-mers; which neighbour the greedy walk prefers."),
+    "C09": dict(
+        category="other", design_ref="DESIGN.md §4 C09, Appendix B.2/B.5", technique=DT_TECH + "; event-order check of the driver",
+        text="Decides S(C09): availability typestate of the graph-route growth loop; the complete decision table of the graph-route step function "
+             "(incl. the link triple, node-length and palindrome conjuncts, stranded and unstranded); the graph-route node builder (node path with "
+             "flipped entries, payload fold, complemented terminal extensions) on all scripted walk pairs; and the driver's order on every censoring "
+             "scenario: censored ids removed first → prune against exactly the surviving nodes → build every surviving available id once → finish → prune "
+             "again → return that graph.",
+        note=DT_NOTE + "Not decided: idempotence and equality with the direct route (relational runtime facts)."),
+    "C19": dict(
+        category="other", design_ref="DESIGN.md §4 C19", technique="abstract interpretation of finish/finish_serial with the index constructor as observation point (sibling equality), who-uses-field query over resolved callees, find_link decision table",
+        text="Decides S(C19): finish and finish_serial hand identical (keys, values) to the index constructor and differ only in the constructor; the two "
+             "end indices are private, key-verifying, and only ever queried through `get` (answers independent of MPHF slot layout ⇒ of the schedule "
+             "that built it); find_link finds a k-mer exactly when it is a key of the probed end index. Concurrency the crate itself might add is "
+             "reported INCONCLUSIVE, not decided.",
+        note=TB + "Assumes boomphf's parallel builder yields a valid MPHF under every schedule (dependency code)."),
+})
+
 NA_PENDING = "checker for this property is still being built in this commit; planned static clauses: DESIGN.md §4"
 
 
